@@ -285,8 +285,11 @@ def transforms_case(case, counters, viol, nontrivial):
     try:
         for _ in range(case["n"]):
             dt = str(g.choice(["float64", "float32"]))
-            spec = c04.gen_spec(g, dt)
-            t = c04.build(spec, xp, dt if g.random() < 0.7 else None)
+            pass_dt = dt if g.random() < 0.7 else None
+            # dtype=None means the namespace's default width (float32 for torch): intervals must be representable there,
+            # otherwise the constructor (rightly) refuses them
+            spec = c04.gen_spec(g, "float32" if (pass_dt is None and xpn == "torch") else dt)
+            t = c04.build(spec, xp, pass_dt)
             eff_dt = dt
             xfit, roles = c04.gen_points(g, spec, 64, dt)
             fitted = bool(g.random() < 0.7) or spec["kind"] == "affine" or bool(spec.get("affine"))
